@@ -531,31 +531,35 @@ impl Loop3D {
                 return Ok(true);
             }
 
-            // Check if the ray and the segment touch. We only consider
-            // touching at the start (e.g., t_a between [0 and 1) ) in
-            // order not to count vertices twice.
-            if let Some((t_a, t_b)) = segment_ab.get_intersection_pt(&ray) {
-                // If the ray intersects
-                // `t_a` is only known up to rounding: a crossing this close to an end of the
-                // segment is a crossing through that vertex
-                const SNAP: Float = 1e-8;
-                if (0. ..=1.).contains(&t_b) && (-SNAP..=1. + SNAP).contains(&t_a) {
-                    if t_a < SNAP {
-                        // if the intersection is at the start of the segment
-                        let side_normal = d.cross(segment_ab.as_vector3d());
-                        if side_normal.is_same_direction(self.normal) {
-                            n_cross += 1
-                        }
-                    } else if t_a < 1. - SNAP {
-                        // intersection is within the segment (not including the end)
-                        n_cross += 1;
-                    } else {
-                        // if the intersection is at the end of the segment
-                        let side_normal = d.cross(segment_ab.as_reversed_vector3d());
-                        if side_normal.is_same_direction(self.normal) {
-                            n_cross += 1
-                        }
-                    }
+            // Does the ray pass through an end of this edge? That is decided for the vertex itself, by its
+            // distance from the ray, so that the two edges meeting at a vertex always agree about it
+            // (the parameter of the intersection along an edge is ill-conditioned when the edge runs
+            // along the ray, and its scale differs from edge to edge).
+            const SNAP: Float = 1e-8;
+            let d2 = d * d;
+            let on_ray = |p: Point3D| -> bool {
+                let w = p - point;
+                let t = (w * d) / d2;
+                (0. ..=1.).contains(&t) && (w - d * t).length() <= SNAP
+            };
+            let (a_on, b_on) = (on_ray(vertex_a), on_ray(vertex_b));
+            if a_on && b_on {
+                // the edge lies on the ray: the edges before and after it decide
+            } else if a_on {
+                // the ray leaves the vertex at the start of the edge: count it if the edge is on the counted side
+                let side_normal = d.cross(segment_ab.as_vector3d());
+                if side_normal.is_same_direction(self.normal) {
+                    n_cross += 1
+                }
+            } else if b_on {
+                let side_normal = d.cross(segment_ab.as_reversed_vector3d());
+                if side_normal.is_same_direction(self.normal) {
+                    n_cross += 1
+                }
+            } else if let Some((t_a, t_b)) = segment_ab.get_intersection_pt(&ray) {
+                // neither end is on the ray: a crossing is a proper one
+                if (0. ..=1.).contains(&t_b) && (0. ..=1.).contains(&t_a) {
+                    n_cross += 1;
                 }
             }
         }
